@@ -4,10 +4,12 @@ package props
 import (
 	_ "verifharness/props/c02"
 	_ "verifharness/props/c03"
+	_ "verifharness/props/c06"
 	_ "verifharness/props/c09"
 	_ "verifharness/props/c10"
 	_ "verifharness/props/c11"
 	_ "verifharness/props/c12"
+	_ "verifharness/props/c14"
 	_ "verifharness/props/c15"
 	_ "verifharness/props/c17"
 	_ "verifharness/props/c18"
